@@ -29,7 +29,7 @@ CLIENTS = [
 def run(tier, work, replay=None):
     v = Verdict("C12", tier)
     out = work.dir / "cases.json"
-    res = run_tlc("HttpOutcome_MC", "HttpOutcome_MC.cfg", work.sub("tlc"), env={"OUT_FILE": str(out)}, coverage=True)
+    res = run_tlc("HttpOutcome_MC", "HttpOutcome_MC.cfg", work.sub("tlc"), env={"OUT_FILE": str(out), "STATUSES": "some" if tier == "quick" else "all"}, coverage=True)
     tlc_must_pass(res, "HttpOutcome_MC")
     v.add_tlc(res, "HttpOutcome_MC exhaustive")
     for act in ("CheckStatus", "ParseJson", "CheckShape", "CheckErrors", "ReturnData"):
@@ -41,7 +41,7 @@ def run(tier, work, replay=None):
         keep = {json.dumps([r["features"].get("status"), r["features"].get("body")], sort_keys=True) for r in rp}
         cases = [c for c in cases if json.dumps([c["status"], c["body"]], sort_keys=True) in keep] or cases
     # the generated method is driven on every body class for a covering set of statuses (quick) / all (thorough)
-    mstat = {200, 204, 404, 500} if tier == "quick" else None
+    mstat = {200, 204, 404, 500} if tier == "quick" else {100, 199, 200, 201, 204, 299, 300, 301, 400, 401, 404, 500, 503}
     method_cases = [c for c in cases if mstat is None or c["status"] in mstat]
 
     def one(cl):
@@ -62,8 +62,10 @@ def run(tier, work, replay=None):
             continue
         traces.extend(trs)
     v.cov["evaluations"] = len(traces)
-    tres, rejected, inv = validate_traces("HttpOutcome_Trace", "HttpOutcome_Trace.cfg", traces, work.sub("tv"))
-    v.add_tlc(tres, "HttpOutcome_Trace")
+    from ..common import validate_traces_parallel
+    rs_, rejected, inv = validate_traces_parallel("HttpOutcome_Trace", "HttpOutcome_Trace.cfg", traces, work.sub("tv"), chunk_size=8000)
+    for tres in rs_:
+        v.add_tlc(tres, "HttpOutcome_Trace")
     bad = set(rejected) | {t for _, t in inv if t is not None}
     for t in sorted(bad):
         tr = traces[t]
